@@ -13,13 +13,23 @@ func init() {
 			"(R04.2) every value handed to newVoteproof is an element of a record's count/countHolded result or the ballot's embedded voteproof after voteproofFromBallots accepted it; count returns only values from voteproofFromBallot (validated by isaac.IsValidVoteproofWithSuffrage through the record's validator, threshold not below the local one, filter passed) or countFromVoted (built by the record's own constructor); " +
 			"(R04.3) voteproof constructors receive the record's own stage point and the constructor's stage matches the record's stage; " +
 			"(R04.4) every sign fact stored into a record's voted set is keyed by its node and was checked against the suffrage public key (directly or via isValidBallot); " +
-			"(R04.5) the record a ballot is stored in is looked up with the point and suffrage-confirm flag of that same ballot's fact; (R04.7) record fields are accessed under the record lock.",
-		NotDecided: "equality of the emitted result with a fresh recount for all vote sets (C01); the expel recount policy of countWithExpels versus the validator (arithmetic over runtime counts); stuck voteproofs built from copyVoted; scheduling of concurrent voters beyond lock discipline.",
+			"(R04.5) the record a ballot is stored in is looked up with the point and suffrage-confirm flag of that same ballot's fact; (R04.7) record fields are accessed under the record lock.; (R04.9) countWithExpels counts expel votes against the pair the validator recounts with (suffrage without the expelled, 100%) in every iteration — violated today, known finding",
+		NotDecided: "equality of the emitted result with a fresh recount for all vote sets (C01); stuck voteproofs built from copyVoted; scheduling of concurrent voters beyond lock discipline.",
 		Run:        runC04,
 	})
 }
 
 func runC04(c *Ctx) {
+	// R04.9: what the ballotbox emits must pass the validation other nodes apply. For a voteproof with
+	// expels isaac.IsValidVoteproofWithSuffrage always recounts over (suffrage without the expelled,
+	// 100%) — C03 R03.1p; countWithExpels must count against that pair in every iteration.
+	c.Rule("R04.9", "SiblingAgreement")
+	if fn := c.Need("isaac/states.(*voterecords).countWithExpels"); fn != nil {
+		loop := "(ι < len(isaacstates.sortBallotSignFactsByExpels(local, vr.voted, vr.expels)))"
+		c.ForEach(fn, "expel votes are counted with the validator's threshold (100%) in every iteration", loop, 1, GStoredVal("base.MaxThreshold"))
+		c.ForEach(fn, "expel votes are counted over the validator's quorum (suffrage without the expelled) in every iteration", loop, 1,
+			GStoredVal("(suf.Len() - len(isaacstates.sortBallotSignFactsByExpels(local, vr.voted, vr.expels)[ι][0]))"))
+	}
 	// R04.1 ----------------------------------------------------------------------------------
 	c.Rule("R04.1", "WhoMaySend")
 	var sends []Site
